@@ -178,6 +178,7 @@ def c14(run):
 
 @plan('C15')
 def c15(run):
+    engine_step(run, 'math', ['C15'])
     if run.tier == 'quick':
         engine_step(run, 'qty', ['c15.composite', 'c15.numbers', 'c15.float_sweep'])
     else:
